@@ -191,6 +191,9 @@ def run(ctx):
     stats = engine_check.standard_run(
         ctx, PROFILE, MONITORS, nontrivial, RULE, n_quick=160, n_thorough=2500, length=30,
         extra_cov={"decision_cells": ncell, "decision_cells_allowed": ntrue, "decision_table_exhaustive": True})
+    # two requesters whose objects carry EQUAL attribute values; one changes / deletes / destroys his own
+    engine_check.scenario_run(ctx, "scen_engine.same_values_builder", MONITORS + [M.mon_c15], nontrivial, RULE, 24, 400, 5,
+                              "equal_values_two_owners_part", seed_base=830000)
     fcells, fgranted = file_phase(ctx)
     ctx.coverage["policy_file_decision_cells"] = fcells
     ctx.coverage["policy_file_decision_cells_allowed"] = fgranted
